@@ -524,6 +524,37 @@ def normalize(F, t, depth=4):
                  (tuple(normalize(F, y, depth) for y in x) if isinstance(x, tuple) else x) for x in t)
 
 
+def reduce_try(t):
+    """the `?` operator on a value whose variant is known on this path (a spliced guard helper returning a literal Ok / Err):
+       branch(Ok(v)) -> Continue(v), branch(Err(e)) -> Break(Err(e)), likewise Some / None;
+       (X as V).i of a known variant V -> its i-th field;  from_residual(Err(e)) -> Err(e), from_residual(None) -> None.
+    The error conversion `From::from` inside from_residual is not represented: the result says which variant, not which error."""
+    if not isinstance(t, tuple) or not t:
+        return t
+    if t[0] == 'ref':
+        return T('ref', reduce_try(t[1]))
+    if t[0] == 'field' and isinstance(t[1], tuple) and t[1] and t[1][0] == 'downcast':
+        inner = deref(reduce_try(t[1][1]))
+        if isinstance(inner, tuple) and inner and inner[0] == 'adt' and inner[2] == t[1][2] and str(t[2]).isdigit() and int(t[2]) < len(inner[3]):
+            return reduce_try(inner[3][int(t[2])])
+        return t
+    if t[0] == 'adt':
+        return T('adt', t[1], t[2], tuple(reduce_try(x) for x in t[3]))
+    if t[0] != 'call':
+        return t
+    name = _plain(t[1])
+    args = tuple(reduce_try(a) for a in t[2])
+    a0 = deref(args[0]) if args else None
+    known = isinstance(a0, tuple) and a0 and a0[0] == 'adt' and a0[1].split('::')[-1] in ('Result', 'Option')
+    if re.search(r'Try::branch$', name) and known:
+        if a0[2] in ('Ok', 'Some'):
+            return T('adt', 'std::ops::ControlFlow', 'Continue', tuple(a0[3][:1]))
+        return T('adt', 'std::ops::ControlFlow', 'Break', (a0,))
+    if re.search(r'FromResidual::from_residual$', name) and known and a0[2] in ('Err', 'None'):
+        return a0
+    return T('call', t[1], args)
+
+
 def reduce_option(F, t, depth=6):
     """evaluate Option adaptors on a term whose Option operands are known variants on this path:
        unwrap_or(Some(v), d) -> v, unwrap_or(None, d) -> d, as_ref/as_mut/copied/cloned(x) -> x,
